@@ -58,6 +58,14 @@ func histMain(args []string) {
 		emit(M{"ev": "Reset"})
 		sfx := fmt.Sprintf("_%s%d_%d", *tag, *seed, h)
 		names := []string{"x" + sfx, "y" + sfx}
+		fname := "f" + sfx
+		extSpec := func() (M, jsonata.Extension) {
+			v := g.pick("one", "two", "three")
+			pv, _ := project(v)
+			spec := M{"t": "fn", "k": "ext", "ps": []interface{}{}, "variadic": false, "uh": "none", "ch": "none", "res": "const", "ret": pv}
+			ext, _ := makeExtension(spec)
+			return spec, ext
+		}
 		exprs := map[int]*jsonata.Expr{}
 		asts := map[int]string{}
 		strs := map[int]string{}
@@ -94,7 +102,9 @@ func histMain(args []string) {
 		}
 		compile := func(e int) {
 			var src string
-			switch r.Intn(6) {
+			switch r.Intn(7) {
+			case 6:
+				src = g.pick("$"+fname+"()", "[$"+fname+"(), $"+names[0]+"]", "$"+fname+"() & \"!\"")
 			case 0, 1, 2:
 				src = historyPrograms[r.Intn(len(historyPrograms))]
 			case 3:
@@ -136,6 +146,24 @@ func histMain(args []string) {
 				v, pv := regval()
 				err := exprs[e].RegisterVars(map[string]interface{}{nm: v})
 				emit(M{"ev": "RegisterExpr", "e": e, "nm": nm, "nmcps": cps(nm), "val": pv, "ok": err == nil})
+			case k == 5:
+				// an extension function, at package level or on one expression (C20)
+				spec, ext := extSpec()
+				nm := fname
+				if r.Intn(10) == 0 {
+					nm = g.pick("bad name", "", "a-b")
+				}
+				if r.Intn(2) == 0 {
+					err := jsonata.RegisterExts(map[string]jsonata.Extension{nm: ext})
+					emit(M{"ev": "RegisterGlobal", "nm": nm, "nmcps": cps(nm), "val": spec, "ok": err == nil})
+				} else {
+					e := 1 + r.Intn(3)
+					if exprs[e] == nil {
+						continue
+					}
+					err := exprs[e].RegisterExts(map[string]jsonata.Extension{nm: ext})
+					emit(M{"ev": "RegisterExpr", "e": e, "nm": nm, "nmcps": cps(nm), "val": spec, "ok": err == nil})
+				}
 			case k == 4:
 				d := 1 + r.Intn(3)
 				docs[d] = g.doc(2)
